@@ -56,6 +56,16 @@ CLAIMS.update({
             'compressed = expanded; refusals; packaged layouts admissible (generated obligation); composed with the VBS file round trip. Correspondence + independent slicing on synthetic files and the CSV tool.',
             TB + 'record decoding per byte (codec table of <= 256 entries)', 'Coq proof (slice arithmetic, filter/map induction) + differential correspondence', '6/C18'),
 })
+CLAIMS.update({
+    'C13': ('Theorems for every PIN of 4..12 digits, every PAN of >= 13 digits, every fill < 2^64: the code\'s string/big-integer construction equals the nibble-level ISO 9564 '
+            'spec (formats 0 and 4) and rebuilding returns the PIN; encrypted forms = E(key, clear block) and decrypt back, for any cipher pair with D(E x) = x that preserves length. '
+            'Correspondence + independent nibble construction, from-scratch DES/3DES/AES reference checked on FIPS vectors, direct ECB calls, recorded random draws.',
+            TB + 'the ciphers are external (Section variables E, D with D(E x) = x and length preservation); that cryptography implements FIPS DES/AES is tested by known-answer vectors, not proved; freshness of secrets.randbits is not modelled',
+            'Coq proof (nibble xor = N.lxor bridge, digit/hex lemmas) + differential correspondence + reference ciphers', '6/C13'),
+    'C14': ('Theorems: TSP = 11 rightmost PAN digits without check digit + key index + leftmost 4 PIN digits; decimalisation = Visa two-scan spec, always 4 decimal digits, for every 16-nibble '
+            'ciphertext; key-part combination = XOR (permutation invariant, duplicates cancel, 32 hex digits); KCV and encrypted zone key as published. Correspondence with cipher stubs driving 0..4 substituted digits.',
+            TB + 'DES/3DES external (Section variable E, length preserving)', 'Coq proof (list/xor algebra, no enumeration of ciphertexts) + differential correspondence + reference DES', '6/C14'),
+})
 PENDING = 'not yet claimed: model and theorems for this property are still being built (DESIGN.md section 11); no check registered yet'
 
 
